@@ -15,6 +15,26 @@ from ..core import pool
 
 
 # --------------------------------------------------------------------------
+# environment seam: sqlite's busy timeout (default 5 s of real sleeping) is shortened so that a
+# lock conflict inside one exploration shows up as the same 'database is locked' error quickly
+
+def _short_busy_timeout():
+    import sqlite3
+    if getattr(sqlite3.connect, '_vf_wrapped', False):
+        return
+    real = sqlite3.connect
+
+    def connect(*a, **k):
+        k.setdefault('timeout', 0.05)
+        return real(*a, **k)
+    connect._vf_wrapped = True
+    sqlite3.connect = connect
+
+
+_short_busy_timeout()
+
+
+# --------------------------------------------------------------------------
 # values
 
 def module_function(x):
